@@ -1,6 +1,17 @@
 package q
 
+import "fmt"
+
 // Formatter is used to write the result to stream.
 type Formatter interface {
 	Write(result interface{}) error
+}
+
+// recoverWriteError is used by the formatters to return an error if the result
+// contains something that cannot be written (a result can be any value,
+// including typed nil pointers nested inside of it).
+func recoverWriteError(err *error) {
+	if r := recover(); r != nil {
+		*err = fmt.Errorf("unable to write result: %v", r)
+	}
 }
